@@ -324,7 +324,7 @@ fn rand_cfg(ctx: &mut Ctx) -> Cfg {
 }
 
 pub fn run_c08(ctx: &mut Ctx) {
-    ctx.case_timeout = std::time::Duration::from_secs(60);
+    ctx.case_timeout = std::time::Duration::from_secs(300);
     let n = ctx.budget(40, 1500);
     for _ in 0..n {
         let c = rand_cfg(ctx);
